@@ -25,10 +25,10 @@ def fixture_classes(tier: str, seed: int):
     from .universes import words as W
 
     pats_ab = [["aa"], ["ab"], ["aba", "bb"], ["aa", "ab"], ["aa", "aaa"], ["b", "aa"], ["aab", "bba"], []]
-    prefixes = ["", "a", "b", "ab", "ba", "aab", "bb"]
+    prefixes = ["", "a", "b", "ab", "ba", "aab", "bb", "bba", "abba", "bab"]
     stats = ["s0", "s1", "s2m", "s3d", "s2x"] if tier == "thorough" else ["s0", "s2m", "s3d"]
     out = []
-    strategies = [W.Expand(), W.RemoveFront(), W.Swap(), W.MinimizePatterns(), W.MergeStats()]
+    strategies = [W.Expand(), W.RemoveFront(), W.SplitFront(), W.Swap(), W.MinimizePatterns(), W.MergeStats()]
     for pats in pats_ab:
         for pre in prefixes:
             for st in stats:
@@ -43,13 +43,13 @@ def fixture_classes(tier: str, seed: int):
             c = W.WC(pre, pats, "abc", False, STATS["s1"])
             if c.is_empty():
                 continue
-            for s in (W.Expand(), W.RemoveFront()):
+            for s in (W.Expand(), W.RemoveFront(), W.SplitFront()):
                 if s.decomposition_function(c) is not None:
                     out.append((c, s))
     rnd = random.Random(seed + 9)
     rnd.shuffle(out)
     if tier == "quick":
-        out = out[:160]
+        out = out[:260]
     return out
 
 
